@@ -216,7 +216,7 @@ PROPS = {
         lean_modules=["Enc.Props.C15"],
         variants=V_DEFAULT, areas=["json.Append", "json.AppendEscape", "json.AppendUnescape", "json.encoder"],
         allowed_native=["Enc.Lemmas.Json", "Lemmas.Json"],
-        main_theorem="Enc.Props.C15 (Go append on a slice model; Append = prefix ++ render for every capacity and growth policy)",
+        main_theorem="Enc.Props.C15.append_eq_render, append_oblivious, grow_irrelevant (slice model: Append = prefix ++ render for every prefix, capacity and growth policy)",
         rule="(a) the Lean slice model's value universe (null/bool/int/string/[]byte/failing value/arrays/structs with omitempty, "
              "`,string`, nil embedded pointer) realised as Go values with reflect: implementation = slice model = prefix ++ render over "
              "a (prefix length x spare capacity) grid placed around the encoded size; (b) on the real code only: every type-directed "
